@@ -185,3 +185,25 @@ def phases(g="g", r="r", l=None, basis="ground-rydberg", eom=True):
             ("disable_eom", g, False),
         ]
     return A
+
+
+def eom_full(g="g", l=None):
+    """C15 alphabet: every EOM operation with and without drift correction, on empty and non-empty channels."""
+    A = [
+        ("add", C52, g),
+        ("add", B100, g),
+        ("enable_eom", g, 2.0, 0.0, 0.0, False),
+        ("enable_eom", g, 2.0, 1.0, -10.0, True),
+        ("eom_pulse", g, 52, 0.0, 0.0, "min-delay", False),
+        ("eom_pulse", g, 50, PI2, 0.0, "min-delay", True),
+        ("eom_pulse", g, 16, 0.0, 1.0, "no-delay", True),
+        ("delay", 16, g),
+        ("delay", 100, g, True),
+        ("modify_eom", g, 1.0, 0.0, 5.0, False),
+        ("modify_eom", g, 3.0, -1.0, -20.0, True),
+        ("disable_eom", g, False),
+        ("disable_eom", g, True),
+    ]
+    if l:
+        A += [("add", C52, l), ("align", (g, l), True), ("eom_pulse", g, 52, 0.0, 0.0, "wait-for-all", False)]
+    return A
